@@ -68,14 +68,13 @@ def parseClassifier (err : String) : Except Err Clsf :=
 
 def isPyNumeric (s : String) : Bool := !s.isEmpty && s.toList.all isPyNumericChar
 
+/-- `str.isdecimal()`: non-empty and every character is a Unicode decimal digit (what `int()` accepts) -/
+def isPyDecimal (s : String) : Bool := !s.isEmpty && s.toList.all isPyDigit
+
 def parsePythonVersion (v : String) : Except Err (Nat × Nat) :=
   match v.splitOn "." with
   | [a, b] =>
-    if isPyNumeric a ∧ isPyNumeric b then
-      -- int() rejects numeric characters that are not decimal digits (e.g. "²", "½")
-      if a.toList.all isPyDigit ∧ b.toList.all isPyDigit then
-        .ok (digitsValue a.toList, digitsValue b.toList)
-      else .error (.foreign "ValueError")
+    if isPyDecimal a ∧ isPyDecimal b then .ok (digitsValue a.toList, digitsValue b.toList)
     else .error (.refurb "refurb: version must be in form `x.y`")
   | _ => .error (.refurb "refurb: version must be in form `x.y`")
 
@@ -109,8 +108,6 @@ structure Settings where
   verbose : Bool := false
   timingStats : Option String := none
   color : Bool := true
-  /-- the config's `load` list held a non-string (accepted by the parser; importing it crashes later) -/
-  loadIllTyped : Bool := false
   deriving DecidableEq, Repr
 
 /-! ### Command line: lexing into `Arg`s, then a total left fold -/
@@ -294,6 +291,60 @@ def Toml.isStr : Toml → Bool
   | .str _ => true
   | _ => false
 
+def checkLoad (load : List Toml) : Except Err Unit :=
+  if load.any (fun x => !x.isStr) then .error (.refurb "refurb: \"load\" must be a list of strings") else .ok ()
+
+/-- the body of `parse_config_file` once `config = tool["refurb"]` is known to be a table -/
+def parseConfigTable (envColor : Bool) (cfg : Table) : Except Err Settings := do
+  let base : Settings := { color := envColor }
+  let (load, cfg) ← popList cfg "load"
+  let _ ← checkLoad load
+  let (quiet, cfg) ← popBool cfg "quiet"
+  let (disableAll, cfg) ← popBool cfg "disable_all"
+  let (enableAll, cfg) ← popBool cfg "enable_all"
+  let (color, cfg) ← popBool cfg "color" true
+  let (enable, cfg) ← popList cfg "enable"
+  let (disable, cfg) ← popList cfg "disable"
+  let enable ← enable.mapM (fun x => parseClassifier x.pyStr)
+  let disable ← disable.mapM (fun x => parseClassifier x.pyStr)
+  let enable := enable.filter (fun x => !disable.contains x)
+  let (ignore, cfg) ← popList cfg "ignore"
+  let ignore ← ignore.mapM (fun x => parseClassifier x.pyStr)
+  let (mypyArgs, cfg) ← popList cfg "mypy_args"
+  let (pv, cfg) ← (match cfg.get? "python_version" with
+    | none => .ok (none, cfg)
+    | some _ => do
+      let (v, cfg) ← popStr cfg "python_version"
+      let pv ← parsePythonVersion v
+      .ok (some pv, cfg) : Except Err (Option (Nat × Nat) × Table))
+  let (format, cfg) ← (match cfg.get? "format" with
+    | none => .ok (none, cfg)
+    | some _ => do
+      let (v, cfg) ← popStr cfg "format"
+      let f ← validateFormat v
+      .ok (some f, cfg) : Except Err (Option String × Table))
+  let (sortBy, cfg) ← (match cfg.get? "sort_by" with
+    | none => .ok (none, cfg)
+    | some _ => do
+      let (v, cfg) ← popStr cfg "sort_by"
+      let f ← validateSortBy v
+      .ok (some f, cfg) : Except Err (Option String × Table))
+  let (amendIgnores, cfg) ← (match cfg.get? "amend" with
+    | none => .ok ([], cfg)
+    | some (.arr items _) => do
+      let xs ← items.mapM parseAmendment
+      .ok (xs.flatten, cfg.erase "amend")
+    | some _ => .error (.refurb "refurb: \"amend\" field(s) must be a TOML table")
+      : Except Err (List Clsf × Table))
+  if !cfg.isEmpty then
+    .error (.refurb s!"refurb: unknown field(s): {", ".intercalate (cfg.map (·.1))}")
+  else
+    .ok { base with
+      load := load.map Toml.pyStr,
+      quiet := quiet, disableAll := disableAll, enableAll := enableAll, color := color,
+      enable := enable, disable := disable, ignore := ignore ++ amendIgnores,
+      mypyArgs := mypyArgs.map Toml.pyStr, pythonVersion := pv, format := format, sortBy := sortBy }
+
 /-- `parse_config_file` applied to `tomllib.loads(contents)` (always a table). -/
 def parseConfig (envColor : Bool) (doc : Table) : Except Err Settings :=
   let base : Settings := { color := envColor }
@@ -308,56 +359,9 @@ def parseConfig (envColor : Bool) (doc : Table) : Except Err Settings :=
       | some config =>
         if !config.truthy then .ok base else
         match config with
-        | .tbl cfg _ => do
-          let (load, cfg) ← popList cfg "load"
-          let (quiet, cfg) ← popBool cfg "quiet"
-          let (disableAll, cfg) ← popBool cfg "disable_all"
-          let (enableAll, cfg) ← popBool cfg "enable_all"
-          let (color, cfg) ← popBool cfg "color" true
-          let (enable, cfg) ← popList cfg "enable"
-          let (disable, cfg) ← popList cfg "disable"
-          let enable ← enable.mapM (fun x => parseClassifier x.pyStr)
-          let disable ← disable.mapM (fun x => parseClassifier x.pyStr)
-          let enable := enable.filter (fun x => !disable.contains x)
-          let (ignore, cfg) ← popList cfg "ignore"
-          let ignore ← ignore.mapM (fun x => parseClassifier x.pyStr)
-          let (mypyArgs, cfg) ← popList cfg "mypy_args"
-          let (pv, cfg) ← (match cfg.get? "python_version" with
-            | none => .ok (none, cfg)
-            | some _ => do
-              let (v, cfg) ← popStr cfg "python_version"
-              let pv ← parsePythonVersion v
-              .ok (some pv, cfg) : Except Err (Option (Nat × Nat) × Table))
-          let (format, cfg) ← (match cfg.get? "format" with
-            | none => .ok (none, cfg)
-            | some _ => do
-              let (v, cfg) ← popStr cfg "format"
-              let f ← validateFormat v
-              .ok (some f, cfg) : Except Err (Option String × Table))
-          let (sortBy, cfg) ← (match cfg.get? "sort_by" with
-            | none => .ok (none, cfg)
-            | some _ => do
-              let (v, cfg) ← popStr cfg "sort_by"
-              let f ← validateSortBy v
-              .ok (some f, cfg) : Except Err (Option String × Table))
-          let (amendIgnores, cfg) ← (match cfg.get? "amend" with
-            | none => .ok ([], cfg)
-            | some (.arr items _) => do
-              let xs ← items.mapM parseAmendment
-              .ok (xs.flatten, cfg.erase "amend")
-            | some _ => .error (.refurb "refurb: \"amend\" field(s) must be a TOML table")
-              : Except Err (List Clsf × Table))
-          if !cfg.isEmpty then
-            .error (.refurb s!"refurb: unknown field(s): {", ".intercalate (cfg.map (·.1))}")
-          else
-            .ok { base with
-              load := load.map Toml.pyStr, loadIllTyped := load.any (fun x => !x.isStr),
-              quiet := quiet, disableAll := disableAll, enableAll := enableAll, color := color,
-              enable := enable, disable := disable, ignore := ignore ++ amendIgnores,
-              mypyArgs := mypyArgs.map Toml.pyStr, pythonVersion := pv, format := format, sortBy := sortBy }
-        | .arr _ _ => .error (.crash "TypeError")        -- list.pop(name, default)
-        | _ => .error (.crash "AttributeError")          -- no .pop on str/int/float/bool/datetime
-    | _ => .error (.crash "AttributeError")              -- tool.get on a non-table
+        | .tbl cfg _ => parseConfigTable envColor cfg
+        | _ => .error (.refurb "refurb: \"tool.refurb\" must be a TOML table")
+    | _ => .error (.refurb "refurb: \"tool\" must be a TOML table")
 
 /-! ### Merge -/
 
@@ -396,8 +400,7 @@ def mergeRaw (envColor : Bool) (old new : Settings) : Settings := {
     sortBy := new.sortBy <|> old.sortBy
     verbose := old.verbose || new.verbose
     timingStats := old.timingStats <|> new.timingStats
-    color := old.color && new.color && envColor
-    loadIllTyped := old.loadIllTyped || new.loadIllTyped }
+    color := old.color && new.color && envColor }
 
 /-- `Settings.merge(old, new)`; the constructor's `__post_init__` may raise. -/
 def merge (envColor : Bool) (old new : Settings) : Except Err Settings :=
@@ -410,7 +413,7 @@ inductive FileOutcome where
   | ok (doc : Table)
   | notFound
   | isDir
-  | foreign (kind : String)   -- TOMLDecodeError / UnicodeDecodeError: ValueErrors with library text
+  | invalid (msg : String)    -- TOMLDecodeError / UnicodeDecodeError with the library's text `msg`
   | crash (kind : String)     -- PermissionError and friends
   deriving Repr
 
@@ -427,7 +430,7 @@ def loadSettings (envColor : Bool) (args : List String) (file : FileOutcome) : E
     | .notFound =>
       if (orStr cli.configFile none).isSome then .error (.refurb s!"refurb: \"{configPath cli}\" was not found")
       else .ok { color := envColor }
-    | .foreign k => .error (.foreign k)
+    | .invalid m => .error (.refurb s!"refurb: \"{configPath cli}\" is not a valid TOML file: {m}")
     | .crash k => .error (.crash k) : Except Err Settings)
   merge envColor cfg cli
 
